@@ -133,6 +133,31 @@ namespace occa {
       registry.anomalies = 0;
     }
 
+    // H3  yield points: the code calls verif::yield(point) at the boundaries of its critical
+    //     sections (see the point ids below); a test harness may install a hook that blocks the
+    //     calling thread there until a schedule controller lets it continue.  No-op otherwise.
+    enum yieldPoint_t {
+      yMemoryRemoveRefEnter = 1,   // memory::removeMemoryRef: before the ring is touched
+      yMemoryRemoveRefUnlinked,    //   after ring_t::removeRef returned, before needsFree() is read
+      yMemoryRemoveRefChecked,     //   after needsFree() was read as true, before delete
+      yMemoryAddRefEnter,          // memory::setModeMemory: before ring_t::addRef
+      yDeviceMallocCount           // device::malloc: before bytesAllocated is updated
+    };
+
+    typedef void (*yieldHook_t)(int);
+
+    inline yieldHook_t& yieldHook() {
+      static yieldHook_t hook = NULL;
+      return hook;
+    }
+
+    inline void yield(const int point) {
+      yieldHook_t hook = yieldHook();
+      if (hook) {
+        hook(point);
+      }
+    }
+
     inline void emit(const char *line) {
       registry_t &registry = getRegistry();
       std::lock_guard<std::mutex> guard(registry.mutex);
